@@ -168,19 +168,19 @@ func (e5Engine) Run(p *Plan) *Result {
 }
 
 type c07Run struct {
-	p       *Plan
-	res     *Result
-	ctx     context.Context
-	ix, pl  *SimNode // indexed node, plain twin
-	rm      *SimNode // remote writer
-	colID   string
-	active  map[string]bool // index name -> currently exists on the indexed node
-	model   map[string]map[string]string // docID -> field -> json literal (live documents, for the unique oracle)
+	p          *Plan
+	res        *Result
+	ctx        context.Context
+	ix, pl     *SimNode // indexed node, plain twin
+	rm         *SimNode // remote writer
+	colID      string
+	active     map[string]bool              // index name -> currently exists on the indexed node
+	model      map[string]map[string]string // docID -> field -> json literal (live documents, for the unique oracle)
 	remoteDocs []string
-	shape   map[string]bool
-	step    int
-	rng64   uint64
-	parts   []condPart
+	shape      map[string]bool
+	step       int
+	rng64      uint64
+	parts      []condPart
 }
 
 type condPart struct{ cond, tag string }
